@@ -333,6 +333,10 @@ func checkReadsRespectFeatures(r *runner) []Violation {
 			continue
 		}
 		seen[k] = true
+		if strings.HasSuffix(m.Feature, "_METADATA_HISTORY") {
+			vs = append(vs, Violation{r.sc.Property, "metadata-history-is-only-read-where-it-is-kept", fmt.Sprintf("%s on ledger %s, whose %s is %q, reads the metadata history, which nothing fills for that ledger (the current metadata is what such a read must use): the storage layer sent %s %s", what, m.Ledger, m.Feature, m.Value, m.SQL, misreadTag(op, m))})
+			continue
+		}
 		vs = append(vs, Violation{r.sc.Property, "read-needing-a-disabled-feature-is-refused", fmt.Sprintf("%s on ledger %s, whose %s is %q, was not refused: the storage layer sent %s %s", what, m.Ledger, m.Feature, m.Value, m.SQL, misreadTag(op, m))})
 	}
 	// ... and a refusal is a client error naming the feature, never a 5xx (no fault is injected into these reads)
@@ -382,6 +386,8 @@ func misreadTag(op *Op, m FeatureMisread) string {
 		kind = "expand=volumes"
 	case strings.Contains(op.Raw.Body, "balance"):
 		kind = "balance filter"
+	case strings.Contains(op.Raw.Body, "metadata"):
+		kind = "metadata filter"
 	}
 	pit := "no pit"
 	if strings.Contains(op.Raw.Path, "pit=") || strings.Contains(op.Raw.Path, "endTime=") {
@@ -406,6 +412,7 @@ func featureReads(r *RNG, l string, prefix string, txN uint64) []Op {
 	}
 	n := 2 + r.Intn(5)
 	for i := 0; i < n; i++ {
+		before := len(out)
 		pit := ""
 		switch r.Intn(4) {
 		case 0, 1:
@@ -466,6 +473,14 @@ func featureReads(r *RNG, l string, prefix string, txN uint64) []Op {
 			get("/v2/"+l+"/logs"+q(pit), "")
 		default:
 			get("/v2/"+l+"/accounts"+q(pit), `{"$match":{"address":"u:"}}`)
+		}
+		// the same reads with a filter on metadata (point-in-time metadata comes from the history tables)
+		if len(out) == before {
+			continue
+		}
+		if last := &out[len(out)-1]; last.Raw.Body == "" && r.Chance(0.35) && !strings.Contains(last.Raw.Path, "/accounts/") && !strings.Contains(last.Raw.Path, "/transactions/") && !strings.Contains(last.Raw.Path, "/logs") {
+			last.Raw.Body = Pick(r, []string{`{"$match":{"metadata[ak0]":"v"}}`, `{"$exists":{"metadata":"ak1"}}`, `{"$match":{"metadata[t]":"1"}}`})
+			last.Raw.Header = map[string]string{"Content-Type": "application/json"}
 		}
 	}
 	return out
